@@ -773,13 +773,21 @@ def union_counterpart(base, spec):
     return None
 
 
-def localize_ext(ext, child, base, v, depth=0):
+def localize_ext(ext, child, base, v, depth=0, through_union=False):
   """Descends to the innermost (extended, child, base, value) where the extended
   spec accepts the value and the base rejects it; `child` is the corresponding
   part of the un-extended child spec (None when it has none)."""
   def bad(e, b, w):
     return S.accepts(e, w)[0] and not S.accepts(b, w)[0]
   same_kind = lambda x, cls: x if isinstance(x, cls) else None
+  if (through_union and depth <= 8 and v is not None and not ext.frozen
+      and isinstance(ext, T.Union) and isinstance(base, T.Union)):
+    # Candidate by candidate, paired as extend() pairs them.
+    for ec in ext.candidates:
+      bc = union_counterpart(base, ec)
+      if bc is not None and not isinstance(bc, T.Union) and bad(ec, bc, v):
+        cc = union_counterpart(child, ec) if isinstance(child, T.Union) else None
+        return localize_ext(ec, cc, bc, v, depth + 1, through_union)
   if depth > 8 or ext.frozen or v is None or isinstance(ext, T.Union):
     return ext, child, base, v
   if isinstance(base, T.Union):
@@ -788,14 +796,14 @@ def localize_ext(ext, child, base, v, depth=0):
     # rejection comes from the Union's own dispatch rule and is attributed to it.
     bc = union_counterpart(base, child if child is not None else ext)
     if bc is not None and bad(ext, bc, v):
-      return localize_ext(ext, child, bc, v, depth + 1)
+      return localize_ext(ext, child, bc, v, depth + 1, through_union)
     return ext, child, base, v
   if isinstance(ext, T.List) and isinstance(base, T.List) and isinstance(v, list):
     ch = same_kind(child, T.List)
     for x in v:
       if bad(ext.element.value, base.element.value, x):
-        return localize_ext(ext.element.value, ch.element.value if ch else None,
-                            base.element.value, x, depth + 1)
+        return localize_ext(ext.element.value, ch.element.value if ch is not None else None,
+                            base.element.value, x, depth + 1, through_union)
   elif isinstance(ext, T.Tuple) and isinstance(base, T.Tuple) and isinstance(v, tuple):
     ch = same_kind(child, T.Tuple)
     for i, x in enumerate(v):
@@ -805,10 +813,10 @@ def localize_ext(ext, child, base, v, depth=0):
         break
       if bad(ee, eb, x):
         try:
-          ec = elem_spec(ch, i) if ch else None
+          ec = elem_spec(ch, i) if ch is not None else None
         except IndexError:
           ec = None
-        return localize_ext(ee, ec, eb, x, depth + 1)
+        return localize_ext(ee, ec, eb, x, depth + 1, through_union)
   elif (isinstance(ext, T.Dict) and isinstance(base, T.Dict) and isinstance(v, dict)
         and ext.schema is not None and base.schema is not None):
     ch = same_kind(child, T.Dict)
@@ -817,7 +825,7 @@ def localize_ext(ext, child, base, v, depth=0):
       if fe is not None and fb is not None and fe.key == fb.key and bad(fe.value, fb.value, x):
         fc = ch.schema.get_field(k) if ch is not None and ch.schema is not None else None
         return localize_ext(fe.value, fc.value if fc is not None else None,
-                            fb.value, x, depth + 1)
+                            fb.value, x, depth + 1, through_union)
   return ext, child, base, v
 
 
@@ -864,7 +872,7 @@ def extend_mechanism(ext, child, base, v, dependent=False):
   """`dependent`: the violation does not show for transform-free, never-used
   specs; the mechanism then names the level of the spec pair at which the
   extended spec behaves unlike what it renders, not a nested parameter."""
-  le, lc, lb, lv = localize_ext(ext, child, base, v)
+  le, lc, lb, lv = localize_ext(ext, child, base, v, through_union=dependent)
   if dependent and not le.frozen:
     reason = S.why_rejected(lb, lv) or 'unexplained'
     if reason.endswith('.required'):
